@@ -229,7 +229,8 @@ def fermi_hubbard_ref(L, t, U, mu):
 
 
 def linear_fermionic_ref(coeff, ftype, orientation='right'):
-    """sum_i f_i a^dag_i ('c') or sum_i f_i a_i ('a')"""
+    """sum_i f_i a^dag_i ('c', 'create', 'creation': the spellings accepted by the pinned source) or sum_i f_i a_i (any other)"""
+    ftype = 'c' if ftype in ('c', 'create', 'creation') else 'a'
     coeff = np.asarray(coeff)
     L = len(coeff)
     c = fermi_ann_jw(L, orientation)
